@@ -541,32 +541,15 @@ func c01History(c *ctx, ci int, cf c01Config, nbar int) {
 				case 4:
 					// a weight command must match a target, else fabio (rightly) rejects the whole configuration
 					d := refmodel.Def{Cmd: "weight", Service: choose(r, names), Src: strings.ToLower(choose(r, hosts)) + choose(r, paths), Weight: choose(r, []float64{0.1, 0.5}), Tags: subset(r, []string{"v1", "blue"}, 1)}
-					if m.expected(cf.Status, strict).WouldMatchWeight(d) && len(m.manual) < 6 {
+					// the override may match now and stop matching when its instances become unhealthy, or match nothing at
+					// all: it then has nothing to do, and the rest of the table must keep following the registry
+					if (m.expected(cf.Status, strict).WouldMatchWeight(d) || r.Intn(3) == 0) && len(m.manual) < 6 {
 						m.manual = append(m.manual, d)
 					}
 				}
 				// drop weight commands that no longer match after other changes (kept simple: re-validate below)
 				steps = append(steps, "manual commands")
 			}
-		}
-		// a 'route weight' that matches nothing makes fabio reject the configuration: keep the model inside the property's scope
-		for {
-			bad := -1
-			t := refmodel.Table{}
-			mm := *m
-			mm.manual = nil
-			t = mm.expected(cf.Status, strict)
-			for i, d := range m.manual {
-				if d.Cmd == "weight" && !t.WouldMatchWeight(d) {
-					bad = i
-					break
-				}
-				t.Apply(d)
-			}
-			if bad < 0 {
-				break
-			}
-			m.manual = append(m.manual[:bad:bad], m.manual[bad+1:]...)
 		}
 		// which instances are healthy by the registry before and after this step (for the no-resurrection check)
 		healthyNow := m.healthyKeys(cf.Status, strict)
@@ -576,7 +559,9 @@ func c01History(c *ctx, ci int, cf c01Config, nbar int) {
 				e.healedBefore = pushTime // healed by the step pushed now: later sightings are legitimate
 			}
 		}
-		if b%8 == 5 && b%25 != 24 {
+		// (only when the step leaves the manual commands alone: a KV change travels through its own watcher and may
+		// legitimately be applied, together with the old service state, before the health change is)
+		if b%8 == 5 && b%25 != 24 && manualText() == rg.manual {
 			// an update that changes nothing (Consul wakes the watcher although the passing set is the same) directly
 			// followed by this step's change, and then nothing: no tick of the barrier helps the table along, it must
 			// reach the registry's state on its own
@@ -602,9 +587,6 @@ func c01History(c *ctx, ci int, cf c01Config, nbar int) {
 				}
 			}
 			push()
-			if manualText() != rg.manual {
-				pushManual() // only when the step changed the manual commands: an unchanged KV write is an update of its own
-			}
 			if !rg.agent.WaitHealthQuery(pushedIdx, barrierWatchdog) {
 				c.R.Inconcl("config %d step %d: health watcher did not come back", ci, b)
 				break
